@@ -46,7 +46,8 @@ CLAIMS = {
              "(complement: nothing retained); index update last and after the bSei share; operand roles of the share formula and "
              "offer/ask denom pairing in the swap computation. NOT decided: offer <= holdings and the share equality at the oracle "
              "price (numeric)."
-             " Also: the reward totals are accumulated over one query_all_balances answer (each coin counted once); the conversion swaps precede the rebalancing swap that spends their proceeds.",
+             " Also: the reward totals are accumulated over one query_all_balances answer (each coin counted once); the conversion swaps precede the rebalancing swap that spends their proceeds."
+             " Also (C17.j): every success exit of DispatchRewards passes each keeper transfer, except on an edge where that balance or the cut was observed zero.",
         technique="guarded-site reachability + operand-role provenance on MIR expressions; known-findings by exact key",
         ref="6/C17"),
     "C18": dict(
@@ -57,7 +58,8 @@ CLAIMS = {
              "CheckSlashing on the three burn paths. The stSei ledger is the version-pinned external cw20-base 0.16.0 (pin checked), "
              "trusted, not analysed. Sum-over-accounts equality in every reachable state follows by induction over operations, "
              "which is argued in DESIGN, not mechanised."
-             " Also: every saved ledger value is computed from a fresh read (no stale read-modify-write when accounts coincide).",
+             " Also: every saved ledger value is computed from a fresh read (no stale read-modify-write when accounts coincide)."
+             " Also (C18.h): the expiry stored by Increase/DecreaseAllowance is the message's Some(expiry) or the entry's own - never a default substituted for an omitted field.",
         technique="ledger-delta summaries from MIR write shapes + dominance + guard reachability + lockfile pin",
         ref="6/C18"),
     "C16": dict(
@@ -93,7 +95,8 @@ CLAIMS = {
              "list has exactly three kinds of writers (unbond store, owner's withdraw remove, legacy migration); history copies the "
              "totals before the roll-over zeroes them and bumps the id by one; query field fidelity; the token delivers "
              "Cw20ReceiveMsg{sender: info.sender, amount}. Sum-over-users = batch total in every reachable state follows by induction "
-             "over operations (argued in DESIGN, not mechanised).",
+             "over operations (argued in DESIGN, not mechanised)."
+             " Also (C07.i): the AllHistory list is collected from the store's range cut only by take(limit) - nothing skipped or filtered.",
         technique="specialised call-graph exploration + ledger-delta shapes + value provenance on MIR",
         ref="6/C07"),
     "C08": dict(
@@ -103,7 +106,8 @@ CLAIMS = {
              "changes by the roll-over's +1; the history map has exactly two writers and the releaser rewrites only `released` and the "
              "withdraw rates of the key it read; the recorded rates are the ones that price the undelegated amount and the pools are "
              "reduced by those products. Assumes now - period does not wrap in u64 (envelope)."
-             " Also: the history entry records the roll-over's own block time; no lost update of State / CurrentBatch / Parameters / Config in any hub variant (a value saved from an earlier load with a write of the same cell in between, directly or in a callee).",
+             " Also: the history entry records the roll-over's own block time; no lost update of State / CurrentBatch / Parameters / Config in any hub variant (a value saved from an earlier load with a write of the same cell in between, directly or in a callee)."
+             " Also (C08.g): a writer of CURRENT_BATCH that can store the rolled-over id stores the roll-over's reset of both request totals with it.",
         technique="guard-edge reachability (operator-exact) + writer inventory + value provenance on MIR",
         ref="6/C08"),
     "C01": dict(
@@ -115,7 +119,8 @@ CLAIMS = {
              "continuation conditions; per-token arguments of the withdraw-rate computation; arrived coins = balance - recorded balance "
              "with a negative difference an error. NOT decided: solvency (balance covers all matured claims), total paid <= arrived, "
              "dust bounds, order independence across release groups (numeric over histories)."
-             " Also: the payable loop has no early exit towards success (every wait-list entry is visited); share and removal id go together in either order.",
+             " Also: the payable loop has no early exit towards success (every wait-list entry is visited); share and removal id go together in either order."
+             " Also (C01.j): whenever the group released together lost coins, the loss share subtracted from a batch is floor(weight x loss) + 1, and a surplus is credited as floor - 1 or 0 (operand-role rule on the withdraw-rate function; the numeric bound itself is not decided).",
         technique="loop-body guard reachability, sibling-loop agreement, pairing/provenance on MIR expressions",
         ref="6/C01"),
     "C05": dict(
@@ -133,7 +138,8 @@ CLAIMS = {
              "complement (so the post-check sum is the delegated amount by shape); the delegated sum counts only the hub's own delegations "
              "in the staking denom; the recomputed State is what is saved, and CheckSlashing runs it. Token pairing of the withdraw-rate "
              "computation is checked under C01.g. NOT decided: 'within two base units' and multi-batch proportionality (numeric)."
-             " Also: no success exit of the recompute function bypasses the booked-vs-delegated comparison except the two designed shortcuts (nothing delegated / nothing booked).",
+             " Also: no success exit of the recompute function bypasses the booked-vs-delegated comparison except the two designed shortcuts (nothing delegated / nothing booked)."
+             " Also: every Ok result of the resync function is the recomputed State (never the stored copy with its stale rates).",
         technique="guard-edge reachability on field assignments + operand-role/complement shape matching",
         ref="6/C06"),
     "C02": dict(
@@ -191,7 +197,8 @@ CLAIMS = {
              "read from the derived serde impls in MIR, a compatibility no per-contract mock test exercises; zero-coin transfers in the "
              "delivery transaction (3 genuine dispatcher sites are known findings shared with C17). NOT decided: the end-state accounting "
              "equalities (numeric)."
-             " Also: conversions precede the rebalancing swap (shared with C17.i); reward::UpdateGlobalIndex and dispatcher::DispatchRewards have no explicit error exit other than the unauthorised-sender rejection.",
+             " Also: conversions precede the rebalancing swap (shared with C17.i); reward::UpdateGlobalIndex and dispatcher::DispatchRewards have no explicit error exit other than the unauthorised-sender rejection."
+             " Also (C19.h): the guards of the hub's UpdateGlobalIndex compare the sender with each designated caller (updater and validators registry).",
         technique="message-sequence extraction + cross-contract wire-schema diff of derived serde impls + guarded-site reachability",
         ref="6/C19"),
 }
